@@ -61,6 +61,14 @@ func init() {
 		if m.t == nil {
 			panic(rtErr(fr.i, "MsgTypeURL(nil)"))
 		}
+		// gogoproto: a type with an XXX_MessageName method names itself (e.g. *types.Any)
+		if sel := fr.i.prog.MethodSets.MethodSet(m.t).Lookup(nil, "XXX_MessageName"); sel != nil {
+			if fn := fr.i.prog.MethodValue(sel); fn != nil && fn.Blocks != nil {
+				if nm, isStr := call(fr.i, fr, 0, fn, []value{m.v}).(string); isStr {
+					return "/" + nm
+				}
+			}
+		}
 		name, ok := fr.i.sess.protoNameOf(m.t)
 		if !ok {
 			panic(engineError{fmt.Sprintf("no proto registration found for %s", m.t)})
